@@ -216,8 +216,8 @@ def _dedupe(fails, cap=12):
 @group('dump_file.wellformed', kind='bounded', files=['atomman/dump/atom_dump/dump.py', 'atomman/dump/atom_dump/process_prop_info.py'],
        functions=['dump.atom_dump.dump', 'dump.atom_dump.process_prop_info'],
        clause='a written LAMMPS dump file has the ITEM layout, atom count = rows, bounding-box bounds with the triclinic conventions (lo<hi), unique ids 1..N, and types/positions/extra columns '
-              'equal to the system in the requested unit style',
-       rule='3 cells x atoms inside/outside/on faces x pbc x unit styles x float formats x extra property on/off; non-trivial = triclinic or atoms outside')
+              'equal to the system in the requested unit style; box-scaled position columns unscale by LAMMPS\' rule to the positions',
+       rule='3 cells x atoms inside/outside/on faces x pbc x unit styles x float formats x extra property on/off (every third case additionally with xs ys zs and xsu ysu zsu columns); non-trivial = triclinic or atoms outside')
 def dump_wellformed(tier, seed):
     from pyvc.native import atomman
     am = atomman()
@@ -284,6 +284,21 @@ def dump_wellformed(tier, seed):
                             msgs.append('atom %d column %s differs' % (i, alt[0]))
             if extra and not any('stress' in c for c in cols):
                 msgs.append('extra per-atom property not written: columns %r' % cols)
+            # box-scaled position columns (xs ys zs / xsu ysu zsu): LAMMPS' rule  x = xlo + xs lx + ys xy + zs xz, ...  must give back the positions
+            if evals % 3 == 0:
+                for pname, cols3 in (('spos', ('xs', 'ys', 'zs')), ('supos', ('xsu', 'ysu', 'zsu'))):
+                    stext = s.dump('atom_dump', lammps_units=units, float_format='%.13e', prop_name=['atom_id', 'atype', pname])
+                    sd = F.parse_lammps_dump(stext)
+                    if not all(c in sd['columns'] for c in cols3):
+                        msgs.append('scaled columns %r not written: %r' % (cols3, sd['columns']))
+                        continue
+                    for r in sd['rows']:
+                        i = int(r[sd['columns'].index('id')]) - 1
+                        sc = _np.array([float(r[sd['columns'].index(c)]) for c in cols3])
+                        back = o + sc.dot(V)
+                        if not F.close(back, s.atoms.pos[i], 1e-9 * max(1.0, float(_np.abs(V).max()))):
+                            msgs.append('atom %d: unscaling the %s columns %r gives %r, the system has %r' % (i, pname, sc.tolist(), back.tolist(), s.atoms.pos[i].tolist()))
+                            break
             if len(samples) < 2:
                 samples.append({'case': key, 'file_head': text[:220]})
         except Exception as e:
